@@ -152,7 +152,12 @@ def execute(spec, ctx):
         import pathlib
         a = _load(ctx, "pathlib path (load_cml)", lambda: Atoms.load_cml(pathlib.Path(path)))
         _check(ctx, a, spec, "pathlib path (load_cml)")
-        ctx.count("path_loads", 2)
+        # the documented explicit filetype wins over whatever the file name suggests
+        odd = os.path.join(d, ("doc.xml", "doc.cml.bak", "doc", "doc.cif")[spec["seed"] % 4])
+        shutil.copyfile(path, odd)
+        a = _load(ctx, "real path %s with filetype='cml'" % os.path.basename(odd), lambda: Atoms.load(odd, filetype="cml"))
+        _check(ctx, a, spec, "real path %s with filetype='cml'" % os.path.basename(odd))
+        ctx.count("path_loads", 3)
         with open(path) as f:
             a = _load(ctx, "real open file", lambda: Atoms.load(f, filetype="cml"))
         _check(ctx, a, spec, "real open file")
